@@ -41,42 +41,42 @@ func init() {
 	register(&PropSpec{ID: "C01",
 		Explanation: "Structural agreement clauses of the SubRip codec: (a) the HTML escape and unescape tables (constant arguments of the two strings.NewReplacer calls) are exact inverses, every escaped form starts with '&', '&' itself is escaped, no escaped form prefixes another — the necessary condition for '&', '<' and NBSP surviving; (b) in the run tokenizer the start-tag and end-tag switches cover the same tags and write the same state fields, every state field is copied into the attributes captured per text run, and the writer closes the tags it opens in reverse order and emits only tags the reader handles; (c) writer separator ∈ reader separators at millisecond scale. Not decided: any equality between decoded documents (line endings, index handling, trailing blank lines, state reset per cue).",
 		Assumptions: commonAssumptions,
-		Rules:       []Rule{{"escape-tables", ruleEscapeTables}, {"srt-tags", ruleSRTTags}, {"timestamp-format", ruleDurationFormats("SRT")}},
+		Rules:       []Rule{{"escape-tables", ruleEscapeTables}, {"srt-tags", ruleSRTTags}, {"timestamp-format", ruleDurationFormats("SRT")}, {"emit-every-element", ruleEmitEveryElement([]string{"Subtitles.WriteToSRT"}, 1)}, {"fixed-radix", ruleFixedRadix}, {"per-cue-independence", ruleNoCarriedState((*Prog).WriterClosure, 5)}},
 	})
 	register(&PropSpec{ID: "C02",
 		Explanation: "Structural agreement clauses of the WebVTT codec: every cue setting (separator ':') and region setting (separator '=') the writer emits is parsed by the reader's switch into the same model field (tables extracted from the constant+field concatenations of the writer and the switch arms of the reader); escape tables are inverse; all region definitions are emitted before the cue loop starts; timestamp separator/scale agree and the inline-timestamp pattern accepts the writer's shape. Not decided: tag-stack semantics, voice extraction, comment attachment, STYLE content, round trip.",
 		Assumptions: commonAssumptions,
-		Rules:       []Rule{{"settings", ruleWebVTTSettings}, {"escape-tables", ruleEscapeTables}, {"timestamp-format", ruleDurationFormats("WebVTT")}, {"per-cue-independence", ruleNoCarriedState((*Prog).WriterClosure, 5)}, {"tag-stack", ruleTagStackConsulted}},
+		Rules:       []Rule{{"settings", ruleWebVTTSettings}, {"escape-tables", ruleEscapeTables}, {"timestamp-format", ruleDurationFormats("WebVTT")}, {"per-cue-independence", ruleNoCarriedState((*Prog).WriterClosure, 5)}, {"tag-stack", ruleTagStackConsulted}, {"emit-every-element", ruleEmitEveryElement([]string{"Subtitles.WriteToWebVTT"}, 1)}, {"fixed-radix", ruleFixedRadix}},
 	})
 	register(&PropSpec{ID: "C03",
 		Explanation: "Structural agreement clauses of the TTML codec: each of the tts: attributes, header/subtitle/item attributes, metadata elements and element paths has the same XML local name (and attribute-ness) on the input and output structs (struct tags compared field by field); each style attribute is wired In.X → StyleAttributes.F → Out.X through the same F; every offset-time metric the grammar constant admits (alternatives of capture group 3, parsed with regexp/syntax) is handled by UnmarshalText; the language table is used forwards by the reader and backwards by the writer and covers the same languages as STL's; MarshalText/UnmarshalText separator and scale agree. Not decided: values of time expressions, <br/> handling, style inheritance links (shared-parent overwrite is a value-level map collision), character coverage.",
 		Assumptions: commonAssumptions,
-		Rules:       []Rule{{"attributes", ruleTTMLAttributes}, {"code-maps", ruleSTLCodeMaps}, {"timestamp-format", ruleDurationFormats("TTML")}, {"language-sources", ruleLanguageSources("TTML")}, {"exact-truncation", ruleExactTruncation(8)}, {"per-cue-independence", ruleNoCarriedState((*Prog).WriterClosure, 5)}},
+		Rules:       []Rule{{"attributes", ruleTTMLAttributes}, {"code-maps", ruleSTLCodeMaps}, {"timestamp-format", ruleDurationFormats("TTML")}, {"language-sources", ruleLanguageSources("TTML")}, {"exact-truncation", ruleExactTruncation(8)}, {"per-cue-independence", ruleNoCarriedState((*Prog).WriterClosure, 5)}, {"emit-every-element", ruleEmitEveryElement([]string{"Subtitles.WriteToTTML"}, 1)}, {"fixed-radix", ruleFixedRadix}},
 	})
 	register(&PropSpec{ID: "C04",
 		Explanation: "Structural agreement clauses of the SSA/ASS codec: (a) every style column name is bound to the same ssaStyle field by the Format-line builder (updateFormat), the row writer (string) and the row reader (newSSAStyleFromString), event columns likewise (string / newSSAEventFromString / the Format list of WriteToSSA) and script-info names (bytes / parse); the model converters are mutually inverse (style ↔ StyleAttributes, script info ↔ Metadata); (b) the literal the row writer prints for a true boolean and for Marked is one the reader takes as true; (c) section headers written are sections read; (d) colour prefix and radix agree. Tables are extracted from the SSA switch arms and stores of /repo on every run. Not decided: Format-permutation behaviour, text splitting, idempotent rewrite.",
 		Assumptions: commonAssumptions,
-		Rules:       []Rule{{"columns", ruleSSAColumns}, {"literals", ruleSSALiterals}, {"timestamp-format", ruleDurationFormats("SSA")}},
+		Rules:       []Rule{{"columns", ruleSSAColumns}, {"literals", ruleSSALiterals}, {"timestamp-format", ruleDurationFormats("SSA")}, {"fixed-radix", ruleFixedRadix}, {"per-cue-independence", ruleNoCarriedState((*Prog).WriterClosure, 5)}, {"emit-every-element", ruleEmitEveryElement([]string{"Subtitles.WriteToSSA"}, 1)}},
 	})
 	register(&PropSpec{ID: "C05",
 		Explanation: "Structural agreement clauses of the EBU STL codec, decided by evaluating constants and literal tables of /repo and comparing sibling implementations: (T3) the 1024-byte GSI and 128-byte TTI layouts — writer part widths and reader slice offsets extracted per field — agree field by field, sum to the block sizes and do not overlap; (T2) every character the writer tables encode is decoded back to itself by the reader table, printable ASCII the writer passes through is decoded as itself, no table has duplicate keys or values; (T4) justification code maps are mutually inverse, frame-rate table rows are 8-byte keys with positive rates, STL and TTML language tables cover the same languages; (A5) GSI ↔ Metadata wiring agrees in both directions; every division by the frame rate is guarded. Not decided: timecode quantisation, diacritic composition, style runs, teletext-vs-open display-standard behaviour.",
 		Assumptions: commonAssumptions,
-		Rules:       []Rule{{"layouts", ruleSTLLayouts}, {"char-tables", ruleSTLCharTables}, {"code-maps", ruleSTLCodeMaps}, {"metadata-wiring", ruleSTLMetadataWiring}, {"support-framerate", ruleSupportFramerate}, {"timestamp-format", ruleDurationFormats("STL")}, {"language-sources", ruleLanguageSources("STL")}, {"frame-rounding", ruleSTLRounding}, {"reader-full-scan", ruleReaderFullScan([]string{"ReadFromSTL"}, 1)}, {"per-cue-independence", ruleNoCarriedState((*Prog).WriterClosure, 5)}},
+		Rules:       []Rule{{"layouts", ruleSTLLayouts}, {"char-tables", ruleSTLCharTables}, {"code-maps", ruleSTLCodeMaps}, {"metadata-wiring", ruleSTLMetadataWiring}, {"support-framerate", ruleSupportFramerate}, {"timestamp-format", ruleDurationFormats("STL")}, {"language-sources", ruleLanguageSources("STL")}, {"frame-rounding", ruleSTLRounding}, {"reader-full-scan", ruleReaderFullScan([]string{"ReadFromSTL"}, 1)}, {"per-cue-independence", ruleNoCarriedState((*Prog).WriterClosure, 5)}, {"emit-every-element", ruleEmitEveryElement([]string{"Subtitles.WriteToSTL"}, 1)}, {"fixed-radix", ruleFixedRadix}},
 	})
 	register(&PropSpec{ID: "C06",
 		Explanation: "Exclusion clause of teletext decoding only (packets of other pages, magazines, PIDs, non-subtitle units never contribute text; characters failing parity contribute none; only boxed text): the chain of control-dependence guards on the only path along which bytes reach a cue's text is decided on the SSA dominator tree — parsePacketData only under receiving ∧ magazine match ∧ 1 ≤ packet ≤ 25; parsePacket only for data-unit id 0x03, framing code 0xe4 and two successful Hamming decodes; parseDataUnit only for EBU data identifiers; process only for the teletext PID, private stream 1 and a presentation time; a page instance starts only on page ∧ magazine match; run text grows only after a start-box; the stored byte is ByteParity's result or 0. Tables: every teletextCharsets row sets g0, national positions < 96, 700+ entries are single UTF-8 runes, colour codes 0–7 map to black…white with the CSS RGB values. Not decided: page scheduling, timing, serial/parallel termination, auto-detection — behaviours of a state machine over the packet sequence; there is no sibling encoder to cross-check against.",
 		Assumptions: commonAssumptions,
-		Rules:       []Rule{{"guards", ruleTeletextGuards}, {"tables", ruleTeletextTables}},
+		Rules:       []Rule{{"guards", ruleTeletextGuards}, {"tables", ruleTeletextTables}, {"national-options", ruleTeletextNational}},
 	})
 	register(&PropSpec{ID: "C07",
 		Explanation: "Structural clauses of any-to-any conversion: (a) the extension tables of Open and Subtitles.Write are extracted from the SSA switch and must agree (same codec family per extension, .ts read-only), be case-insensitive and default to ErrInvalidExtension; (b) every writer returns before its first Write/Encode when the list is empty; (c) the CLI sub-command table equals the documented one (operation, flag variables in order, then Write(-o)); (d) no writer dereferences Metadata, styles' or regions' inline style or any optional pointer without a nil test (E1 restricted to the writers' closure). Not decided: cue preservation across the 35 format pairs and operation sequences.",
 		Assumptions: commonAssumptions,
-		Rules:       []Rule{{"ext-dispatch", ruleExtDispatch}, {"cli-dispatch", ruleCLIDispatch()}, {"empty-list-guard", ruleEmptyListGuard}, {"writers-nil-tolerant", ruleWritersNilTolerant}},
+		Rules:       []Rule{{"ext-dispatch", ruleExtDispatch}, {"cli-dispatch", ruleCLIDispatch()}, {"cli-guards", ruleCLIGuards}, {"emit-every-element", ruleEmitEveryElement(writerFns[:5], 5)}, {"empty-list-guard", ruleEmptyListGuard}, {"writers-nil-tolerant", ruleWritersNilTolerant}},
 	})
 	register(&PropSpec{ID: "C09",
 		Explanation: "Structural clauses of Sync (Subtitles.Add): frame condition (writes only StartAt, EndAt and the item slice); both boundaries of a cue receive the same update expression; the in-place deletion rewinds the loop index on every path; the CLI sync sub-command calls Add with the -s flag and then writes. Not decided: that the shift equals d, the clamp, exactly which cues are removed.",
 		Assumptions: commonAssumptions,
-		Rules:       []Rule{{"frame", ruleFrame("Subtitles.Add")}, {"twin-update", ruleTwinUpdate("Subtitles.Add")}, {"delete-rewind", ruleDeleteRewind("Subtitles.Add")}, {"full-scan", ruleFullScan("Subtitles.Add")}, {"cli", ruleCLIDispatch("sync")}},
+		Rules:       []Rule{{"frame", ruleFrame("Subtitles.Add")}, {"twin-update", ruleTwinUpdate("Subtitles.Add")}, {"delete-rewind", ruleDeleteRewind("Subtitles.Add")}, {"full-scan", ruleFullScan("Subtitles.Add")}, {"cli", ruleCLIDispatch("sync")}, {"cli-guards", ruleCLIGuards}},
 	})
 	register(&PropSpec{ID: "C10",
 		Explanation: "Structural clauses of Fragment: frame condition; every new piece is a whole-value copy of its source item; every path from an insertion to a return passes Order(); CLI fragment → Fragment(-f). Not decided: where the cuts fall (the known last-listed-cue bound fault is a run-time bound and stays invisible).",
